@@ -227,6 +227,40 @@ def run(ctx, res):
             res.violation("input", v, ddl=h["text"], oracle="history")
         elif len(h["tables"]) >= 2 and h["stmts"]:
             res.nontrivial.add(h["text"])
+    # ---- the same histories in other output modes: the declared effects do not depend on the mode (incl. the error for a missing table)
+    hmodes = ["bigquery", "mssql", "hql"] if not ctx.thorough else ["bigquery", "mssql", "hql", "mysql", "oracle", "redshift", "snowflake", "postgres"]
+    sub_h = list(zip(hs, full))[:: (1 if ctx.thorough else 2)]
+    for mode in hmodes:
+        FM = ctx.impl.map([{"op": "run", "ddl": h["text"], "run": {"output_mode": mode}} for h, _ in sub_h])
+        res.evaluations += len(sub_h)
+        for (h, f), fm in zip(sub_h, FM):
+            res.count("mode:" + mode)
+            if ("ok" in f) != ("ok" in fm):
+                res.violation("input", "output_mode=%s: %s, default mode: %s" % (mode, "ok" if "ok" in fm else fm.get("raise"), "ok" if "ok" in f else f.get("raise")),
+                              ddl=h["text"], mode=mode, oracle="history_modes")
+                continue
+            if "ok" not in f:
+                if f.get("raise") != fm.get("raise"):
+                    res.violation("input", "output_mode=%s raises %s, default mode %s" % (mode, fm.get("raise"), f.get("raise")), ddl=h["text"], mode=mode, oracle="history_modes")
+                continue
+            def undataset(v):          # bigquery reports every schema under the key dataset
+                if isinstance(v, dict):
+                    return {("schema" if k == "dataset" else k): undataset(x) for k, x in v.items()}
+                if isinstance(v, list):
+                    return [undataset(x) for x in v]
+                return v
+            a, b = undataset(py_of_impl(f["ok"])), undataset(py_of_impl(fm["ok"]))
+            def part(t, k):
+                if k == "columns":
+                    return [(c.get("name"), c.get("type"), c.get("unique"), c.get("nullable"), c.get("default")) for c in t.get("columns", [])]
+                if k == "index":       # dialect modes add their own index fields (clustered ...): the common ones are compared
+                    return [{x: ix.get(x) for x in ("index_name", "unique", "detailed_columns", "columns")} for ix in (t.get("index") or [])]
+                return t.get(k)
+            view = lambda v: [{k: part(t, k) for k in ("table_name", "columns", "primary_key", "alter", "index", "checks")}
+                              for t in v if isinstance(t, dict) and "table_name" in t]
+            if view(a) != view(b):
+                res.violation("input", "output_mode=%s: the tables after the ALTER / INDEX statements differ from the default mode" % mode, ddl=h["text"], mode=mode,
+                              oracle="history_modes")
     # ---- correspondence E on the implementation's own parser output ---------------------------------------
     if ctx.model:
         st = ctx.impl.map([{"op": "statements", "ddl": h["text"]} for h in hs])
